@@ -80,12 +80,21 @@ def gen_field(r, ids, name, max_cont=3):
     return {'name': name, 'comments': comments, 'body': body, 'value': value, 'id': ids.next('f')}
 
 
-def gen_doc(r, max_paras=4, max_fields=5, dup_rate=0.0, allow_no_final_newline=True):
+BIG_NAMES = NAMES + ['X-Field-%d' % i for i in range(60)] + ['f%d' % i for i in range(40)]
+
+
+def gen_doc(r, max_paras=4, max_fields=5, dup_rate=0.0, allow_no_final_newline=True, big=False):
+    """big: a document an order of magnitude beyond the usual sizes (8..30 paragraphs of 10..40 fields) - whatever is only
+    right for a handful of fields or paragraphs shows there."""
     ids = Ids()
     nparas = r.choice([1, 1, 2, 2, 3, 4][:max_paras + 2])
+    if big:
+        nparas = r.randint(8, 30)
     paras = []
     for _ in range(nparas):
         nf = r.randint(1, max_fields)
+        if big:
+            nf = r.randint(10, 40)
         names = []
         folded = set()
         while len(names) < nf:
@@ -95,7 +104,7 @@ def gen_doc(r, max_paras=4, max_fields=5, dup_rate=0.0, allow_no_final_newline=T
                     n = n.swapcase()
                 names.append(n)
                 continue
-            n = r.choice(NAMES)
+            n = r.choice(BIG_NAMES if big else NAMES)
             if r.random() < .15:
                 n = n.upper()
             if n.lower() in folded:
